@@ -214,7 +214,7 @@ class DirectorProbe(ProbeProcess):
     """A probe whose updates may carry a structural operation on the top-level
     process set: parameters['sops'][k] is the operation of its k-th update
     ({'op': 'del', 'q': name} | {'op': 'add', 'q': name, 'cfg': {...}} | None)."""
-    defaults = dict(ProbeProcess.defaults, sops=[])
+    defaults = dict(ProbeProcess.defaults, sops=[], nest=False)
 
     def ports_schema(self):
         sch = super().ports_schema()
@@ -227,15 +227,18 @@ class DirectorProbe(ProbeProcess):
         sops = self.parameters['sops']
         op = sops[k] if k < len(sops) else None
         if op:
+            nest = self.parameters['nest']
             if op['op'] == 'del':
-                upd['root'] = {'_delete': [op['q']]}
+                upd['root'] = {'_delete': [('c_' + op['q']) if nest else op['q']]}
             else:
                 cfg = dict(op['cfg'])
                 cfg['pid'] = op['q']
-                upd['root'] = {'_generate': [{
-                    'processes': {op['q']: ProbeProcess(cfg)},
-                    'topology': {op['q']: {'v': ('v',)}},
-                    'initial_state': {}}]}
+                gen = {'processes': {op['q']: ProbeProcess(cfg)},
+                       'topology': {op['q']: {'v': ('..', 'v') if nest else ('v',)}},
+                       'initial_state': {}}
+                if nest:
+                    gen['key'] = 'c_' + op['q']
+                upd['root'] = {'_generate': [gen]}
             if not self.parameters['silent']:
                 REC.add('sop', self.pid, op['op'], op['q'],
                         list(op['cfg']['vars']) if op['op'] == 'add' else [])
